@@ -726,6 +726,11 @@ func c05Literals(rep *ev.Reporter, mu *sync.Mutex) int64 {
 	for _, u := range []string{`\u0041`, `\u00e9`, `\u6f22`, `\U0001F600`, `\u0000`, `\uFFFD`, `\u007f`, `\u0080`} {
 		lits = append(lits, c05Lit{`"` + u + `"`, "dq-esc-unicode", false}, c05Lit{`'x` + u + `y'`, "sq-esc-unicode", false})
 	}
+	// raw control characters inside the quotes (a multi-line literal of a CRLF file, a raw tab): the text between the
+	// quotes is the value, byte for byte
+	for _, raw := range []string{"a\rb", "a\r\nb", "a\nb", "a\tb", "\r", "x\r\n\r\ny", "a\fb", "a\u00a0b"} {
+		lits = append(lits, c05Lit{`"` + raw + `"`, "dq-raw-control", false}, c05Lit{`'` + raw + `'`, "sq-raw-control", false})
+	}
 	lits = append(lits, c05DocLiterals()...)
 	var n int64
 	for i, l := range lits {
